@@ -1,3 +1,87 @@
+/-
+C08 — Compaction keeps the latest value of every key and changes nothing else.
+Theorems about `Liftbridge.Compact` for every key pattern, segment layout and HW position.
+`InvC` (Proofs/Compact.lean) is the invariant of logs that may have been compacted or
+trimmed (it follows from `Inv` and is preserved by cleaning); the reader theorems of C01 are
+re-proved under it, i.e. without assuming dense offsets.
+-/
 import Liftbridge.Model.Compact
+import Liftbridge.Proofs.Log
+import Liftbridge.Proofs.Compact
+
 namespace Liftbridge.Props.C08
+open Liftbridge Liftbridge.Log Liftbridge.Log.CLog Liftbridge.Compact Liftbridge.Proofs.Log
+open Liftbridge.Proofs.Compact
+
+/-- A clean with compaction enabled and no retention limit. -/
+def compactLog (l : CLog) : CLog := cleanLog ⟨0, 0, 0⟩ 0 true l
+
+/-- Records of the newest (active) segment. -/
+def newestSegRecs (l : CLog) : List Rec := (l.segs.getLast?.map Seg.recs).getD []
+
+/-- `r` is the most recent committed message of its key. Keys are compared as given: no key
+(`none`) is not a key, and the empty key `some []` is a key of its own. -/
+def LatestOfKey (l : CLog) (r : Rec) : Prop :=
+  ∃ k, r.body.key = some k ∧ r.offset ≤ l.hw ∧
+    ∀ r' ∈ l.abs, r'.body.key = some k → r'.offset ≤ l.hw → r'.offset ≤ r.offset
+
+theorem invC_of_inv (l : CLog) (h : Inv l) : InvC l := invC_of_inv' h
+
+/-- Cleaning (any retention limits, compaction on or off) preserves the invariant. -/
+theorem invC_cleanLog (l : CLog) (lim : Retention.Limits) (ttl : Int) (c : Bool) (h : InvC l) :
+    InvC (cleanLog lim ttl c l) := invC_cleanLog' l lim ttl c h
+
+/-- Each surviving message is unchanged, at its original offset and in its original order:
+the compacted log is a sublist of the log before (records carry offset, timestamp, epoch,
+key, value and headers). -/
+theorem survivors_unchanged (l : CLog) : (compactLog l).abs.Sublist l.abs := survivors_sublist l
+
+/-- The most recent committed message of every key survives. -/
+theorem latest_kept (l : CLog) (h : InvC l) (r : Rec) (hr : r ∈ l.abs) (hl : LatestOfKey l r) :
+    r ∈ (compactLog l).abs := latest_kept' l h r hr hl
+
+/-- Every message without a key survives. -/
+theorem keyless_kept (l : CLog) (r : Rec) (hr : r ∈ l.abs) (hk : r.body.key = none) :
+    r ∈ (compactLog l).abs := kept_of_retain l r hr (retain_keyless _ _ r hk)
+
+/-- Every message at or above the high watermark survives. -/
+theorem above_hw_kept (l : CLog) (r : Rec) (hr : r ∈ l.abs) (hhw : l.hw ≤ r.offset) :
+    r ∈ (compactLog l).abs := kept_of_retain l r hr (retain_above_hw _ _ r hhw)
+
+/-- Every message in the newest segment survives. -/
+theorem newest_segment_kept (l : CLog) (r : Rec) (hr : r ∈ newestSegRecs l) :
+    r ∈ (compactLog l).abs := newest_kept l r hr
+
+/-- Nothing else changes: a message is removed only if a later committed message has the same key. -/
+theorem removed_only_superseded (l : CLog) (h : InvC l) (r : Rec) (hr : r ∈ l.abs)
+    (hgone : r ∉ (compactLog l).abs) :
+    ∃ k r', r.body.key = some k ∧ r' ∈ l.abs ∧ r'.body.key = some k ∧ r.offset < r'.offset ∧ r'.offset ≤ l.hw :=
+  removed_only_superseded' l h r hr hgone
+
+/-- The record at the high watermark survives, so committed readers stay well defined. -/
+theorem hw_record_survives (l : CLog) (r : Rec) (hr : r ∈ l.abs) (hhw : r.offset = l.hw) :
+    r ∈ (compactLog l).abs := above_hw_kept l r hr (by omega)
+
+set_option linter.unusedVariables false in -- holds even without `InvC` (the last segment is untouched)
+/-- Compaction does not move the end of the log or the high watermark. -/
+theorem compact_keeps_ends (l : CLog) (h : InvC l) :
+    (compactLog l).nextOffset = l.nextOffset ∧ (compactLog l).hw = l.hw :=
+  ⟨compactLog_nextOffset l, cleanLog_hw _ _ _ l⟩
+
+/-- Repeated compaction (no appends in between) removes nothing more. -/
+theorem compact_idempotent (l : CLog) (h : InvC l) : (compactLog (compactLog l)).abs = (compactLog l).abs :=
+  compact_idempotent' l h
+
+/-- Forward readers on a compacted (sparse) log: from ANY start offset, exactly the surviving
+messages at or after it, in order. -/
+theorem readUncommitted_sparse (l : CLog) (s : Int) (h : InvC l) (hs : ∃ r ∈ l.abs, s ≤ r.offset) :
+    l.readUncommitted s = .ok (l.abs.filter (fun r => s ≤ r.offset)) :=
+  readUncommitted_sparse' l s h hs
+
+/-- Committed readers on a compacted log (the HW record always survives compaction). -/
+theorem readCommitted_sparse (l : CLog) (s : Int) (h : InvC l)
+    (hhw : ∃ r ∈ l.abs, r.offset = l.hw) (hs : s ≤ l.hw) :
+    l.readCommitted s = .ok (l.abs.filter (fun r => s ≤ r.offset ∧ r.offset ≤ l.hw)) :=
+  readCommitted_sparse' l s h hhw hs
+
 end Liftbridge.Props.C08
